@@ -45,6 +45,41 @@ CLAIMED = {
              "added/updated disjoint, classification of rowids, deleted = vanished cells whose rowid did not return, unchanged dictionary reports "
              "nothing. Tied by vh.iter correspondence and replay against SQLite's per-commit snapshots.",
         design="§9 C03", note=NOTE + "md5 modelled as identity on the hashed bytes (collision-freeness assumed); partial: skip_sound (an untouched b-tree has unchanged cells) is decided by the replay oracle, not by a theorem.", technique=T),
+    "C10": dict(
+        text="Kernel-checked theorems over the model of Signature.__init__ and generate_signature_regex: every examined row's serial "
+             "types / classes are in the focused / simplified signature, unique_records = number of distinct digests, per-column "
+             "probabilities sum to one exactly, empty tables get the affinity's recommended signature, and the generated pattern full-matches "
+             "SQLite's serial-type header of every full-width row under NoLoneEmptyBlob; the unrestricted statement is refuted by a Lean "
+             "witness replayed on the code. Model tied to /repo by byte-for-byte regex correspondence, matcher-vs-re validation, stub and "
+             "SQLite-written signatures.",
+        design="§9 C10", note=NOTE + "partial: needs NoLoneEmptyBlob and serial types < 2^56; parsed-version selection is an input of the model; Python re modelled and validated, not verified.", technique=T),
+    "C11": dict(
+        text="Lean model of the per-value rendering and row assembly of the CSV/XLSX/SQLite/text exporters (type tests, utf-8/utf-16 "
+             "decode-with-replace, '=' guard, XML scrub, truthiness, bound types, padding, naming, commit order); 59 kernel-checked theorems: "
+             "per format never-fails / reads-back / five-values-distinct as full statement + counterexample + partial, repr(bytes) injective, "
+             "one record per cell. Tied to /repo on every run by stub-cell correspondence through the real _write_cells/write_commit and by "
+             "real databases exported and read back with csv/sqlite3/openpyxl/a text parser.",
+        design="§9 C11", note=NOTE + "partial: csv, openpyxl, sqlite3 and float repr trusted; decoders tied by correspondence; name quoting not covered; open findings C11-A..G.", technique=T),
+    "C07": dict(
+        text="Theorems on the model of the ordinary-table SQL parser: affinity rules equal SQLite's for every typetoken except NOT_SPECIFIED "
+             "(counterexample kept), the closing-parenthesis scanner on balanced text, name/affinity recovery for Simple column lists. Schema "
+             "rows per version by db.dump / vh.dump correspondence. Model tied to OrdinaryTableRow/ColumnDefinition by correspondence on "
+             "grammar-generated DDL; oracle: PRAGMA table_xinfo, affinity probing, sqlite_master per WAL commit.",
+        design="§9 C07", note=NOTE + "partial: Index/View/Trigger/Virtual row SQL parsing is not modelled; open findings C07-01..15.", technique=T + "; DDL grammar generator"),
+    "C04": dict(
+        text="Theorems decided over the regenerated table of every file-system call site under sqlite_dissect/: every site whose path can "
+             "derive from evidence only reads or stats and opens 'r'/'rb'; sqlite3.connect gets output paths only; every mutating site takes its "
+             "path from --directory / --file-prefix / output names or --log-file (XLSX spool files excepted: counterexample + partial); written "
+             "files are children of the output directory when prefix and table names contain no separator. Completeness of the table and the "
+             "run-time half by audit-hook correspondence over the CLI option lattice and library scenarios with before/after evidence snapshots.",
+        design="§5.3, §9 C04", note=NOTE + "partial: symlinks/hard links, atime, evidence directory named as output, C-level I/O of sqlite3 (snapshots only) are outside; read-only media covered by the audit rule only.", technique="Lean 4 decision over AST-translated call-site table (translator fs_effects.py) + audit-hook correspondence in subprocesses"),
+    "C12": dict(
+        text="Theorems over Model.Cli (ordered checks and export plan of entrypoint.main, parametric in the library): --tables is exactly a "
+             "filter of the plan, --no-journal equals the database-only outcome, --carve changes neither validation nor the plan except for "
+             "signatures, formats are independent, option-level refusals happen before anything but the log file exists (full statement "
+             "refuted: later refusals leave an empty directory). Option table regenerated from parse_args. Tied by cli.plan correspondence "
+             "over the option lattice in fresh subprocesses; exported CSV/SQLite rows compared with API iteration.",
+        design="§9 C12", note=NOTE + "partial: row values are C11; text/XLSX compared at entry level; multi-input runs at validation level; open findings C12-F1..F5.", technique="Lean 4 theorems over hand-written CLI model + AST-translated option table (translator options.py) + subprocess correspondence"),
     "C06": dict(
         text="Theorems on the page-layout check: stable sort, telescoping identity, every SQLite-well-formed layout is accepted with "
              "fragment total = header count, accepted layouts tile [content offset, page end) without overlap or gap, strict checking "
